@@ -107,6 +107,24 @@ Proof.
   constructor; [lia|]. eapply Forall_impl; [|apply IH]. cbn beta. intros; lia.
 Qed.
 
+Lemma cumsum_from_last_cons ws : forall acc w,
+  nth (length ws) (cumsum_from acc (w :: ws)) 0 = acc + w + sumz ws.
+Proof.
+  induction ws as [|w' ws IH]; intros acc w.
+  - cbn. lia.
+  - change (nth (length (w' :: ws)) (cumsum_from acc (w :: w' :: ws)) 0)
+      with (nth (length ws) (cumsum_from (acc + w) (w' :: ws)) 0).
+    rewrite IH. change (sumz (w' :: ws)) with (w' + sumz ws). lia.
+Qed.
+
+Lemma cumsum_from_last acc ws :
+  ws <> [] -> nth (length ws - 1) (cumsum_from acc ws) 0 = acc + sumz ws.
+Proof.
+  destruct ws as [|w ws]; intros Hne; [congruence|].
+  replace (length (w :: ws) - 1)%nat with (length ws) by (cbn; lia).
+  rewrite cumsum_from_last_cons. change (sumz (w :: ws)) with (w + sumz ws). lia.
+Qed.
+
 (** ** the theorem *)
 Section Sys.
   Variables (ws : list Z) (N : nat) (a b : Z).
@@ -273,4 +291,25 @@ Section Sys.
     rewrite Z.mul_0_r in H. rewrite Z.div_0_l in H by lia.
     assert ((0 + T - 1) / T = 0) by (apply Z.div_small; lia). lia.
   Qed.
+  (** every systematic index names an input particle: the last cumulative weight is the total,
+      and every pointer position lies strictly below it *)
+  Theorem sys_indices_in_range :
+    Forall (fun i => (i < length ws)%nat) (sys_indices ws N a b).
+  Proof.
+    assert (Hne : ws <> []).
+    { intros E. subst ws. cbn in HT. lia. }
+    assert (Hlen : (0 < length ws)%nat) by (destruct ws; [congruence|cbn; lia]).
+    unfold sys_indices. apply Forall_forall. intros i Hin.
+    apply in_map_iff in Hin. destruct Hin as [j [Hj Hjin]]. apply in_seq in Hjin.
+    subst i. fold NZ.
+    assert (Hlast : (length ws - 1 < length ws)%nat) by lia.
+    apply (sys_index_le j) in Hlast. 
+    assert (Hb : below T NZ a b (Z.of_nat j) (nth (length ws - 1) (cumsum ws) 0) = false).
+    { unfold cumsum. rewrite cumsum_from_last by exact Hne. cbn [Z.add]. fold T.
+      unfold below. apply Z.ltb_ge. unfold NZ.
+      assert (Z.of_nat j * b + a <= Z.of_nat N * b) by nia.
+      assert (0 < T) by (unfold T; lia). nia. }
+    apply Hlast in Hb. lia.
+  Qed.
+
 End Sys.
